@@ -225,6 +225,7 @@ class KafkaClient(object):
         self._disconnect_on_timeout = disconnect_on_timeout
         self._brokers = {}  # Broker-NodeID -> BrokerMetadata
         self._closing = False  # Are we shutting down/shutdown?
+        self._cancel_on_close = set()  # Deferreds (bootstrap I/O, back-off waits) to cancel on close
         self.update_cluster_hosts(hosts)  # Store hosts and mark for lookup
         if reactor is None:
             from twisted.internet import reactor
@@ -387,7 +388,20 @@ class KafkaClient(object):
         self._close_brokerclients(brokerclients.values())
         # clean up other outstanding operations
         self.reset_all_metadata()
+        # Fail what is waiting on a bootstrap connection or a back-off timer
+        for d in list(self._cancel_on_close):
+            d.cancel()
         return self.close_dlist or defer.succeed(None)
+
+    def _until_close(self, d):
+        """Have `close()` cancel *d* if it is still pending then"""
+
+        def _forget(result):
+            self._cancel_on_close.discard(d)
+            return result
+
+        self._cancel_on_close.add(d)
+        return d.addBoth(_forget)
 
     # TODO: Expose a public method with useful postconditions like this.
     @defer.inlineCallbacks
@@ -457,7 +471,7 @@ class KafkaClient(object):
                     delay,
                 )
                 attempt += 1
-                yield task.deferLater(self.reactor, delay, lambda: None)
+                yield self._until_close(task.deferLater(self.reactor, delay, lambda: None))
 
             else:
                 log.debug("%r: load_topic_partitions -> %r", self, snapshot)
@@ -1189,7 +1203,7 @@ class KafkaClient(object):
                 raise CancelledError(message="{} was closed while bootstrapping".format(self))
             ep = self._endpoint_factory(self.reactor, host, port)
             try:
-                protocol = yield ep.connect(_bootstrapFactory)
+                protocol = yield self._until_close(ep.connect(_bootstrapFactory))
             except Exception as e:
                 log.debug("%s: bootstrap connect to %s:%s -> %s", self, host, port, e)
                 continue
@@ -1199,7 +1213,7 @@ class KafkaClient(object):
                 raise CancelledError(message="{} was closed while bootstrapping".format(self))
 
             try:
-                response = yield protocol.request(request).addTimeout(self.timeout, self.reactor)
+                response = yield self._until_close(protocol.request(request).addTimeout(self.timeout, self.reactor))
             except Exception:
                 log.debug(
                     "%s: bootstrap %s to %s:%s failed",
@@ -1214,6 +1228,8 @@ class KafkaClient(object):
             finally:
                 protocol.transport.loseConnection()
 
+        if self._closing:
+            raise CancelledError(message="{} was closed while bootstrapping".format(self))
         raise KafkaUnavailableError("Failed to bootstrap from hosts {}".format(hostports))
 
     @inlineCallbacks
